@@ -19,7 +19,7 @@ for p in sorted(glob.glob(os.path.join(V, "seeded", "*", "*", "meta.json"))):
 out = ["## 8. Seeded changes from isolated sub-agents", "",
        "Each seeding agent got only the JSON record of one property and its own scratch git worktree (nothing from /verif) and",
        "produced two independent changes that break the property while the touched test files still pass (first wave: A, B; a second",
-       "wave of fresh agents, told only which mechanisms were already taken, produced C, D; further waves E, F and G, H, and for fourteen properties I, J), each with a",
+       "wave of fresh agents, told only which mechanisms were already taken, produced C, D; further waves E, F and G, H, and I, J for all twenty properties), each with a",
        "demo that fails with the change and passes without. `tools/eval_seeded.sh` re-confirms every one independently (the patch",
        "applies to the current tree in a scratch copy, the demo fails with it and passes without) and runs the registered quick",
        "check against the patched copy; everything is filed under `seeded/<ID>/<A..J>/` (`patch.diff`, `demo.py`, `notes.md`,",
